@@ -237,6 +237,8 @@ def build_record(spec: Dict[str, Any]) -> Any:
 
     length = spec["length"]
     rec = h.DummyRecord(seq=spec["seq"], circular=spec["circular"], record_id=spec["id"])
+    if spec.get("name") is not None:
+        rec.name = spec["name"]
     if spec.get("description"):
         rec.description = spec["description"]
     for key, val in spec.get("annotations", {}).items():
@@ -367,8 +369,17 @@ def run_rpf(case: Dict[str, Any], tmp: str) -> Dict[str, Any]:
     timeout = case.get("timeout")
     start = time.monotonic_ns()
     iterable = (a for a in args) if case.get("generator") else args
+    bystander = None
+    if case.get("bystander_ms"):
+        # an unrelated child process of the caller that ends while the batch is running
+        import multiprocessing
+        bystander = multiprocessing.Process(target=time.sleep, args=(case["bystander_ms"] / 1000,))
+        bystander.start()
     obs = _guarded(lambda: base.parallel_function(real_task, iterable, cpus=cpus, timeout=timeout),
                    case.get("limit", 30.0))
+    if bystander is not None:
+        obs["bystander_exited_during_batch"] = not bystander.is_alive()
+        bystander.join(5.0)
     if obs.get("blocked"):
         _kill_children()
     # completion order of the chunks, reconstructed from the log
@@ -440,17 +451,27 @@ def run_rec(case: Dict[str, Any]) -> Dict[str, Any]:
         return out
     reference = _guarded(in_process, 30.0)
     crossing = [build_record(spec) for spec in specs]
+
+    def content(record: Any) -> List[Any]:
+        return [str(record.seq), record.skip, len(record.get_cds_features())]
+
+    def finder(record: Any) -> List[Any]:
+        if record.id.startswith("bad"):
+            return ["fails"]
+        return ["finds", len(range(30, max(len(record.seq) - 100, 0), 300))]
+    given = [content(r) + [finder(r)] for r in (build_record(spec) for spec in specs)]   # separate copies: reading CDS fills caches
     pickled = [first_difference(canon(pickle.loads(pickle.dumps(r))), canon(r)) for r in crossing]
     obs = _guarded(lambda: base.parallel_function(func, ([r] for r in crossing), cpus=case["cpus"]),
                    case.get("limit", 30.0))
     if obs.get("blocked"):
         _kill_children()
-    out: Dict[str, Any] = {"pickle_problems": [p for p in pickled if p]}
+    out: Dict[str, Any] = {"pickle_problems": [p for p in pickled if p], "given": given}
     if "ret" in reference and "ret" in obs:
         out["problems"] = _compare(obs["ret"], reference["ret"])
         out["same_objects"] = all(a is b for a, b in zip(obs["ret"], crossing))
         out["ids"] = [r.id for r in obs["ret"]]
         out["objects"] = sum(len(canon(r)[1]) for r in obs["ret"])
+        out["content"] = [content(r) for r in obs["ret"]]       # after the graph comparison (fills caches)
     else:
         ref_obs = {k: v for k, v in reference.items() if k != "ret"} or {"ok": True}
         got_obs = {k: v for k, v in obs.items() if k != "ret"} or {"ok": True}
@@ -466,7 +487,8 @@ def run_prep(case: Dict[str, Any]) -> Dict[str, Any]:
     def go(cpus: int) -> Any:
         destroy_config()
         options = update_config({
-            "cpus": cpus, "reuse_results": False, "skip_sanitisation": False, "allow_long_headers": False,
+            "cpus": cpus, "reuse_results": False, "skip_sanitisation": False,
+            "allow_long_headers": bool(case.get("allow_long_headers", False)),
             "limit_to_record": "", "minlength": case.get("minlength", 10), "limit": -1, "taxon": "bacteria",
             "genefinding_tool": "fake", "genefinding_gff3": "", "triggered_limit": False})
         try:
@@ -482,8 +504,13 @@ def run_prep(case: Dict[str, Any]) -> Dict[str, Any]:
     if "ret" in reference and "ret" in obs:
         out["problems"] = _compare(obs["ret"], reference["ret"])
         out["ids"] = [r.id for r in obs["ret"]]
+        out["recs"] = [[r.id, r.name, r.original_id] for r in obs["ret"]]
+        out["recs_one_cpu"] = [[r.id, r.name, r.original_id] for r in reference["ret"]]
         out["skips"] = [r.skip for r in obs["ret"]]
         out["cds"] = [len(r.get_cds_features()) for r in obs["ret"]]
+        if out["recs"] != out["recs_one_cpu"]:
+            out["problems"].insert(0, f"identifiers with {case['cpus']} cpus {[r[0] for r in out['recs']]} vs "
+                                      f"in-process {[r[0] for r in out['recs_one_cpu']]}")
     else:
         ref_obs = {k: v for k, v in reference.items() if k != "ret"} or {"ok": True}
         got_obs = {k: v for k, v in obs.items() if k != "ret"} or {"ok": True}
